@@ -75,7 +75,7 @@ def twin_inputs(kind, tags=('',)):
                 out[tag + 'hextext'] = {'items': list(''.join('%02X' % b for b in body + [lrc]).encode())}
             else:
                 body = [b if b not in (0x7B, 0x7D) else 0x11 for b in body]
-                while True:
+                for _attempt in range(5000):
                     crc = 0xFFFF
                     for b in body:
                         crc ^= b
